@@ -305,8 +305,14 @@ Proof.
       destruct (entry_loop um fu kk vk st d1 None None false) as [[[key val] al] d2|r];
       unfold el_post in He; [|exact He];
       destruct (negb (doff d2 =? st)%nat); [unfold rf_post; reflexivity|] end.
-    destruct He as [Hg2 Hfl]. cbn [snd] in Hfl. unfold rf_post. split; [exact (good_trans _ _ _ Hs Hg2)|].
-    cbn [snd]. apply (flag_mono d d1); assumption.
+    destruct He as [Hg2 Hfl]. cbn [snd] in Hfl.
+    assert (Hgo : forall x, rf_post d (LGo (x, al) d2)).
+    { intros x. unfold rf_post. split; [exact (good_trans _ _ _ Hs Hg2)|].
+      cbn [snd]. apply (flag_mono d d1); assumption. }
+    destruct val as [x|]; [apply Hgo|].
+    destruct vk as [| | | |t]; try apply Hgo.
+    destruct (um t []) as [v0 a0| |] eqn:Eu; [apply Hgo|unfold rf_post; reflexivity|].
+    exfalso. exact (Hnp t [] Eu).
 Qed.
 
 Definition fl_post (d : decoder) (al : bool) (r : ures) : Prop :=
